@@ -6,8 +6,12 @@ small segment lengths (inside the reference area, never the current block, no un
 Drivers (E1, Kani/CBMC): the variable-length hash H' chain structure for literal output lengths across the 64-byte and
 32-byte-step boundaries (BLAKE2b compress transcript); crypto_pwhash parameter validation and cost conversion for
 symbolic (opslimit, memlimit): accepted => inside libsodium's ranges and handed to Argon2 WITHOUT truncation;
-PwHash::verify accepts exactly the recomputed hash. The block schedule of argon2_hash (H0 field order, first blocks,
-per-position (prev, ref) selection) is NOT decided here - see OUTSIDE."""
+PwHash::verify accepts exactly the recomputed hash.
+Block schedule (E1, harness compiled INSIDE the argon2 module through the second include hook): argon2_hash for literal
+(type, t, m) instances with one lane, with G (fill_block), H' (longhash) and index_alpha replaced by identity-tagging loggers:
+H0 field layout over the BLAKE2b transcript, first-block seeds, memory geometry (m' = 4 * floor(m / 4)), and for every
+position of every segment of every pass the (previous, reference) blocks handed to G, J1 taken from the previous block /
+the address block G(0, G(0, Z)), XOR-onto-old in later passes, and the tag = H'(last block)."""
 import json
 import os
 import subprocess
@@ -20,9 +24,8 @@ ASSUMPTIONS = [
     "BLAKE2b compress == RFC 7693 F (C07, E2)",
     "end-to-end byte equality for a parameter set follows by composition of the parts; it is not solver-checked as a whole",
 ]
-OUTSIDE = ["argon2_hash's block schedule as a whole (H0 field order, first-block derivation, segment / slice iteration, data-independent address generation): "
-           "1 KiB blocks x m >= 8 with a stubbed compression function were not encoded within the time available; the existing suite's three RFC/libsodium vectors are the only check on it",
-           "lanes > 1 (the API fixes 1)", "memory sizes and output lengths beyond the listed literals"]
+OUTSIDE = ["the block schedule is decided for the listed literal (type, t, m) instances only (m <= 16 KiB, t <= 3); larger memories repeat the same per-position code with longer segments (segment length > 128 would add a second address block per segment - not exercised)",
+           "lanes > 1 (the API fixes 1)", "memory sizes and output lengths beyond the listed literals", "secret key / associated data inputs of H0 (the API passes none)"]
 
 E2_FUNCTIONS = ["argon2::{fill_block, blake2_round_nomsg (+ closure g), fblamka, copy_block, xor_block}", "argon2::index_alpha", "utils::rotr64"]
 
@@ -115,6 +118,7 @@ fn c09_pwhash_verify() {
 
 
 
+WIPE_1K = r"_RNvX[0-9A-Za-z_]*7zeroizeINtNtNtC[0-9A-Za-z_]*4core5slice4iter7IterMuthE[0-9A-Za-z_]*7Zeroize7zeroize[0-9A-Za-z_]*"
 SCHED_STUBS = [("crate::argon2::fill_block", "crate::argon2::verif_harness_argon2::fill_block_stub"),
                ("crate::blake2b::blake2b_soft::longhash", "crate::argon2::verif_harness_argon2::longhash_stub")]
 
@@ -253,9 +257,12 @@ def sched_suite(tier):
                           desc="block schedule of argon2_hash for type %s, t = %d, m = %d KiB, 1 lane, |P| = 3, |S| = 16 symbolic: H0 layout, first blocks, per-position (prev, ref) selection with symbolic J, "
                                "address generation, XOR passes, tag == RFC 9106 (G and H' replaced by identity-tagging loggers)" % ({1: "i", 2: "id"}[ty], t, m),
                           bounds={"type": ty, "t_cost": t, "m_cost_kib": m, "lanes": 1, "pwlen": 3, "saltlen": 16, "outlen": 32}))
+        # <slice::IterMut<u8> as Zeroize>::zeroize (wiping of the 1 KiB temporaries: 1024 volatile writes, ~15 min of symbolic
+        # execution) gets an empty body: wiping is not part of C09
+        hs[-1].drop_bodies = [WIPE_1K]
     s = Suite("C09", src, hs, stubs=rs.stub_names(("barrier", "fmt", "b2compress"), extra=SCHED_STUBS + IA_STUB),
               functions=["argon2::{argon2_hash, Argon2Context::new, Argon2Instance::new, argon2_initial_hash, argon2_fill_first_blocks, argon2_fill_memory_blocks, fill_segment, index_alpha, generate_addresses, argon2_finalize, load_block, store_block, copy_block}"],
-              assumptions=ASSUMPTIONS + ["fill_block == RFC 9106 G and longhash == H' (the other C09 obligations)"],
+              assumptions=ASSUMPTIONS + ["fill_block == RFC 9106 G and longhash == H' (the other C09 obligations)", "wiping of byte temporaries (zeroize over slice::IterMut<u8>) has no effect on the result: its body is dropped"],
               argon2_source=open(os.path.join(VERIF, "harness", "argon2_sched.rs")).read())
     s.tag = "sched"
     return s
